@@ -1,14 +1,14 @@
 import os
 ID = 'C10'
 LEVEL = 'other'
-CONTRACT_MODULES = ['contracts.stats', 'contracts.calc']
-CONE = ['csep.utils.calc._compute_likelihood', 'csep.utils.stats.get_quantiles', 'csep.utils.stats.greater_equal_ecdf', 'csep.utils.stats.less_equal_ecdf']
+CONTRACT_MODULES = ['contracts.stats', 'contracts.calc', 'contracts.catforecast', 'contracts.cateval']
+CONE = ['csep.core.catalog_evaluations.number_test', 'csep.core.forecasts.CatalogForecast.get_expected_rates', 'csep.utils.calc._compute_likelihood', 'csep.utils.stats.get_quantiles', 'csep.utils.stats.greater_equal_ecdf', 'csep.utils.stats.less_equal_ecdf']
 ORACLE_MODULES = ['rt.oracles_catfc', 'rt.oracles_contracts']
 BOUNDED = os.path.exists(os.path.join(os.path.dirname(__file__), '..', 'rt', 'bounded_C10.py'))
 FLOAT_MODEL = 'E for the time conversions (see C15); concrete executions otherwise'
 TRUSTED = ['the oracles in rt/ compute the expected outcome from the property statement, independently of the code under test', 'pyvc engine, z3 5.1']
-ASSUMPTIONS = ['the functions of this property are outside the deductive reach of the engine in this round (generators, file readers, recursion over tiles, whole-test pipelines): every clause is decided by the bounded run-time contract only; see DESIGN.md section 10']
-EXPLANATION = 'quantiles of every catalog-based test are get_quantiles(distribution, observed): proved (C09 contracts). The statistics themselves (number, spatial, magnitude, pseudo-likelihood, resampled, MLL), the not-valid / None / undersampled paths: independent recomputation on small forecasts by the bounded run-time contract only'
+ASSUMPTIONS = ['proved: the catalog number test (test distribution = sizes of the synthetic catalogs of one pass with the configured filters, observed statistic, quantiles from get_quantiles of exactly those sizes), the expected rates of a catalog forecast (mean over the synthetic catalogs of their space-magnitude counts, list-backed forecasts), the pseudo-likelihood kernel _compute_likelihood and the empirical quantile functions; the loop over the forecast is cut by the pass invariant (induction over the proved __next__ step, C13)', 'spatial, magnitude, pseudo-likelihood, resampled-magnitude and MLL tests as wholes, the not-valid / None / undersampled paths and file-backed forecasts: bounded run-time contract only (NaN-valued test distributions and data-dependent list lengths are outside the engine)']
+EXPLANATION = 'catalog number_test under contract with the pass invariant; CatalogForecast.get_expected_rates == per-bin mean of the synthetic catalogs; _compute_likelihood == documented pseudo-likelihood and normalised spatial statistic incl. the nan cases; quantiles of every catalog-based test are get_quantiles(distribution, observed): proved (C09 contracts). The other statistics: independent recomputation on small forecasts by the bounded run-time contract'
 TECHNIQUE = 'bounded stand-in: run-time form of the contracts on the real code (small-scope enumeration + directed cases), labelled bounded, nothing counted as proved; deductive part: contracts of the shared callees'
-LEVEL_TEXT = 'other: the shared callees are proved (see cone); the property-level clauses are decided by the bounded run-time contract only'
+LEVEL_TEXT = 'other: number test, expected rates and the shared kernels are proved; the remaining tests are decided by the bounded run-time contract only'
 LEVEL_NOTE = 'bounded only; oracle independence trusted'
